@@ -726,6 +726,79 @@ MUTANTS = [
                          insert_after(f, lambda s: isinstance(s, ast.Expr) and "notify_done" in u(s), stmts("self.job = None"))), also=("C05", "C18")),
     Mutant("C07", "stream-entry-removed-with-a-plain-del", "C07-R6", S, "DaemonObject.get_next_stream_item",
            lambda f, t: replace_stmt(f, lambda s: isinstance(s, ast.Expr) and ".pop(streamId, None)" in u(s), stmts("del self.daemon.streaming_responses[streamId]")), also=("C10",)),
+    # ---- rules added after the tenth blind round (DESIGN 10.15)
+    Mutant("C01", "cycle-guard-kept-on-the-serializer", "C01-R10", SER, "MarshalSerializer.convert_obj_into_marshallable",
+           lambda f, t: (replace_expr(f, lambda e: isinstance(e, ast.Call) and u(e.func) == "self.convert_obj_into_marshallable" and len(e.args) == 2, "self.convert_obj_into_marshallable(value)"),
+                         replace_expr(f, lambda e: isinstance(e, ast.Call) and u(e.func) == "self.convert_obj_into_marshallable" and len(e.args) == 2, "self.convert_obj_into_marshallable(value)")),
+           also=("C11",)),
+    Mutant("C01", "oneway-arguments-through-thread-kwargs", "C01-R7", S, "_OnewayCallThread.__init__",
+           lambda f, t: (replace_expr(f, lambda e: isinstance(e, ast.Call) and "__init__" in u(e.func),
+                                      "super(_OnewayCallThread, self).__init__(target=self._methodcall, name='oneway-call', args=(pyro_method, *vargs), kwargs=kwargs)"),
+                         (lambda g: (setattr(g, "args", ast.parse("def _(self, method, *vargs, **kwargs): pass").body[0].args),
+                                     replace_expr(g, lambda e: isinstance(e, ast.Call) and u(e.func) == "self.pyro_method", "method(*vargs, **kwargs)")))(find_fn(t, "_OnewayCallThread._methodcall")))),
+    Mutant("C10", "stream-item-remembered-and-replayed", "C10-R1", S, "DaemonObject.get_next_stream_item",
+           lambda f, t: replace_stmt(f, lambda s: isinstance(s, ast.Return) and "next(stream)" in u(s),
+                                     stmts("self._last_item = next(stream)\nreturn self._last_item")), also=("C03", "C07")),
+    Mutant("C10", "stream-refused-for-another-connection", "C10-R1", S, "DaemonObject.get_next_stream_item",
+           lambda f, t: insert_after(f, lambda s: isinstance(s, ast.If) and u(s.test) == "client is None",
+                                     stmts("if client is not None and client is not current_context.client:\n    raise errors.PyroError('item stream belongs to another connection')"))),
+    Mutant("C10", "daemon-constructed-in-shutdown-state", "C10-R5", S, "Daemon.__init__",
+           lambda f, t: delete_stmt(f, lambda s: isinstance(s, ast.Expr) and "mustshutdown.clear()" in u(s))),
+    Mutant("C12", "compat-proxy-merges-into-the-callers-annotations", "C12-R5", "Pyro5/compatibility/Pyro4.py", None,
+           lambda f, t: [c.body.append(stmts("def _pyroInvoke(self, methodname, vargs, kwargs, flags=0, objectId=None):\n"
+                                             "    current_context.annotations.update({'COMP': b'4'})\n"
+                                             "    return super()._pyroInvoke(methodname, vargs, kwargs, flags, objectId)")[0])
+                         for c in t.body if isinstance(c, ast.ClassDef) and c.name == "Proxy"]),
+    Mutant("C04", "registry-copied-on-registration", "C04-R5", SER, "SerializerBase.register_dict_to_class",
+           lambda f, t: f.body.insert(0, stmts("cls._SerializerBase__custom_dict_to_class_registry = dict(cls._SerializerBase__custom_dict_to_class_registry)")[0])),
+    Mutant("C08", "metadata-answered-from-a-cache", "C08-R4", S, "DaemonObject.get_metadata",
+           lambda f, t: f.body.insert(1 if isinstance(f.body[0], ast.Expr) and isinstance(f.body[0].value, ast.Constant) else 0,
+                                      stmts("cached = self.daemon.__dict__.setdefault('_metadataById', {}).get(objectId)\nif cached is not None:\n    return cached")[0]) or
+           f.body.insert(2 if isinstance(f.body[0], ast.Expr) and isinstance(f.body[0].value, ast.Constant) else 1,
+                         stmts("if self.daemon.__dict__.get('_metadataById', {}).get(objectId) is not None:\n    return self.daemon.__dict__['_metadataById'][objectId]")[0])),
+    Mutant("C14", "nsc-strips-its-arguments", "C14-R11", "Pyro5/nsc.py", "handle_command",
+           lambda f, t: f.body.insert(0, stmts("args = [a.strip() for a in args]")[0])),
+    Mutant("C14", "nsc-lookup-lowercases-the-name", "C14-R11", "Pyro5/nsc.py", "handle_command.cmd_lookup",
+           lambda f, t: replace_expr(f, lambda e: isinstance(e, ast.Subscript) and u(e) == "args[0]" and isinstance(getattr(e, "ctx", None), ast.Load), "args[0].lower()")),
+    Mutant("C14", "autocleaner-removes-by-escaped-regex", "C14-R4", NSV, "AutoCleaner.run",
+           lambda f, t: replace_expr(f, lambda e: isinstance(e, ast.Call) and u(e) == "self.nameserver.remove(name)", "self.nameserver.remove(regex=re.escape(name))")),
+    Mutant("C16", "error-handler-remembers-the-last-exception", "C16-R5", S, "_default_methodcall_error_handler",
+           lambda f, t: f.body.append(stmts("daemon.last_methodcall_error = exception")[0])),
+    Mutant("C17", "back-off-generator-made-finite", "C17-R4", SU, "__retrydelays",
+           lambda f, t: replace_stmt(f, lambda s: isinstance(s, ast.While), stmts("for tenths in range(1, 6):\n    yield tenths / 10"))),
+    Mutant("C18", "new-worker-counted-before-it-is-started", "C18-R3", ST, "Pool.process",
+           lambda f, t: _move_before(f, lambda s: isinstance(s, ast.Expr) and u(s) == "worker.start()", lambda s: False, "self.busy.add(worker)") if False else
+           insert_after(f, lambda s: isinstance(s, ast.Assign) and u(s) == "worker = Worker(self)", stmts("self.busy.add(worker)")), also=("C05",)),
+    Mutant("C19", "pyro-object-state-normalised-on-the-wire", "C19-R1", SER, "serialize_pyro_object_to_dict",
+           lambda f, t: replace_expr(f, lambda e: isinstance(e, ast.Call) and u(e) == "obj.__getstate__()", "tuple(sorted(i) if isinstance(i, (set, frozenset)) else i for i in obj.__getstate__())")),
+    Mutant("C19", "broadcast-answer-encoded-as-utf8", "C19-R5", NSV, "BroadcastServer.processRequest",
+           lambda f, t: replace_expr(f, lambda e: isinstance(e, ast.Constant) and e.value == "iso-8859-1", "'utf-8'")),
+    Mutant("C20", "json-encoder-skips-unencodable-keys", "C20-R3", SER, "JsonSerializer.dumps",
+           lambda f, t: [c.keywords.append(ast.keyword(arg="skipkeys", value=ast.Constant(True))) for c in ast.walk(f) if isinstance(c, ast.Call) and u(c.func) == "json.dumps"], also=("C01", "C11")),
+    Mutant("C01", "msgpack-bytes-packed-as-str", "C01-R2", SER, "MsgpackSerializer.dumpsCall",
+           lambda f, t: [setattr(k, "value", ast.Constant(False)) for c in ast.walk(t) if isinstance(c, ast.Call) and u(c.func) == "msgpack.packb" for k in c.keywords if k.arg == "use_bin_type"], also=("C11", "C20")),
+    Mutant("C03", "batch-submission-under-the-retry-loop", "C03-R6", C, "BatchProxy.__call__",
+           lambda f, t: replace_stmt(f, lambda s: isinstance(s, ast.If) and u(s.test) == "not oneway",
+                                     stmts("if not oneway:\n    return _RemoteMethod(self._pyroInvoke, '<batch>', self._BatchProxy__proxy._pyroMaxRetries)()")), also=("C11",)),
+    Mutant("C08", "refused-peer-drained-inside-the-handshake", "C08-R2", S, "Daemon._handshake",
+           lambda f, t: insert_after(f, lambda s: isinstance(s, ast.Expr) and u(s) == "conn.send(msg.data)",
+                                     stmts("if msg.type != protocol.MSG_CONNECTOK:\n    with contextlib.suppress(Exception):\n        while conn.sock.recv(4096):\n            pass")), also=("C05", "C18")),
+    Mutant("C19", "uri-object-part-percent-decoded", "C19-R3", CO, "URI.__init__",
+           lambda f, t: replace_expr(f, lambda e: isinstance(e, ast.Call) and u(e) == "match.group('object')", "__import__('urllib.parse').parse.unquote(match.group('object'))"), also=("C16", "C04")),
+    Mutant("C13", "cleanup-loop-over-the-live-resource-set", "C13-R5", SU, "SocketConnection.close",
+           lambda f, t: replace_expr(f, lambda e: isinstance(e, ast.Call) and u(e) == "list(self.tracked_resources)", "self.tracked_resources")),
+    Mutant("C07", "msgpack-packer-kept-on-the-serializer", "C07-R5", SER, "MsgpackSerializer.dumps",
+           lambda f, t: (replace_expr(f, lambda e: isinstance(e, ast.Call) and u(e.func) == "msgpack.packb", "self._packer.pack(data)"),
+                         replace_expr(find_fn(t, "MsgpackSerializer.dumpsCall"), lambda e: isinstance(e, ast.Call) and u(e.func) == "msgpack.packb", "self._packer.pack((obj, method, vargs, kwargs))"),
+                         [c.body.insert(1, stmts("def __init__(self):\n    self._packer = msgpack.Packer(use_bin_type=True, default=self.default)")[0]) for c in t.body
+                          if isinstance(c, ast.ClassDef) and c.name == "MsgpackSerializer"]), also=("C01", "C11", "C04", "C20")),
+    Mutant("C10", "remote-iterator-consumed-under-the-fallback-handler", "C10-R6", C, "Proxy.__iter__",
+           lambda f, t: (lambda tr: (tr.body.append(tr.orelse[0]), setattr(tr, "orelse", [])))([n for n in ast.walk(f) if isinstance(n, ast.Try) and n.orelse][0])),
+    Mutant("C14", "remove-by-name-only-for-truthy-names", "C14-R4", NSV, "NameServer.remove",
+           lambda f, t: replace_expr(f, lambda e: isinstance(e, ast.Compare) and u(e) == "name is not None", "name")),
+    Mutant("C18", "communication-timeout-set-by-the-worker", "C18-R3", ST, "SocketServer_Threadpool.events",
+           lambda f, t: (delete_stmt(f, lambda s: isinstance(s, ast.If) and "COMMTIMEOUT" in u(s.test)),
+                         find_fn(t, "ClientConnectionJob.__call__").body.insert(0, stmts("if config.COMMTIMEOUT:\n    self.csock.timeout = config.COMMTIMEOUT")[0])), also=("C05",)),
 ]
 
 
